@@ -19,7 +19,7 @@ pub fn check(tier: Tier) -> Check {
     ] {
         parts.push(Part::new(
             "C17/resume",
-            json!({"depth": tier.pick(5, 7), "expiry": expiry, "secs_ago": ago}),
+            json!({"depth": tier.pick(6, 7), "expiry": expiry, "secs_ago": ago}),
             0,
             tier.pick(15, 300),
         ));
